@@ -590,6 +590,12 @@ def tab_cli_rejections(run, pof):
         if (t.get("callee") or "").startswith("std::collections::HashMap") and (t.get("callee") or "").endswith("::new") and not t["dest"]["p"]:
             params_local = t["dest"]["l"]
     if params_local is None:
+        # the map is collected by a helper of the driver and handed back: the named local of that type
+        for l_ in range(f.arg_count + 1, len(f.locals)):
+            if re.match(r"^std::collections::HashMap<std::string::String, std::string::String", f.local_ty(l_) or "") and f.local_name(l_) not in (None, "val", "residual") \
+                    and params_local is None:
+                params_local = l_
+    if params_local is None:
         run.violation(R, R + "|leftover|anchor", f.loc(), "mechanism not found: parameter map in parse_output_format")
         return
     agg_blocks = [b for b, st in T.region_aggregates(f, f.reachable(), "OutputFormat")]
@@ -651,6 +657,22 @@ def _op_refers(f, op, local):
         return False
     if p["l"] == local:
         return True
+    # a reference taken to the local (`&map`), followed through plain copies of that reference
+    l_, hops = p["l"], 0
+    while hops < 4:
+        hops += 1
+        ds_ = f.full_defs(l_)
+        if len(ds_) != 1 or ds_[0][0] != "stmt" or ds_[0][3]["k"] != "assign":
+            break
+        rv_ = ds_[0][3]["rv"]
+        if rv_["k"] == "ref" and rv_.get("place", {}).get("l") == local:
+            return True
+        if rv_["k"] == "use" and op_place(rv_["op"]) is not None and not op_place(rv_["op"])["p"]:
+            l_ = op_place(rv_["op"])["l"]
+            if l_ == local:
+                return True
+            continue
+        break
     o = f.origin_op(op)
     n = 0
     while n < 10:
@@ -1011,6 +1033,12 @@ def tab_cli_params_no_duplicate(run, pof, R="TAB-cli"):
     of the values is validated and `base:3,base:16` is accepted"""
     from rules_sym import option_tests
     ins = [(bi, t) for bi, t in pof.calls() if re.search(r"HashMap::<.*>::insert$", t.get("callee") or "") and "String" in " ".join(t.get("arg_tys") or [])]
+    if not ins:
+        # the parameters are collected by a helper of the driver: the rule is decided there
+        for _, t_ in pof.calls():
+            h_ = run.prog.fn(t_.get("resolved") or "") if t_.get("resolved_local") else None
+            if h_ is not None and h_.id.startswith("driver::") and h_.id != pof.id and any(re.search(r"HashMap::<.*>::insert$", t2.get("callee") or "") for _, t2 in h_.calls()):
+                return tab_cli_params_no_duplicate(run, h_, R)
     # the tested value is the answer of an insertion: directly, or the named local the insertions write their answer to
     names = {"var:%s" % pof.local_name(t["dest"]["l"]) for _, t in ins if not t["dest"]["p"] and pof.local_name(t["dest"]["l"])}
     tests = [x for x in option_tests(pof, lambda e: ("HashMap" in e and "insert(" in e) or e in names)]
